@@ -375,13 +375,16 @@ Violated(c) ==
       \* C05 on float operands: the five results of one pair partition each other iff each of them is the named combination
       \* at every admissible witness
       v05f == IF "C05" \in Laws /\ fw /\ Depth1(c) /\ ~C01_WitnessF(c) THEN {"C05"} ELSE {}
+      \* C09 on float operands: a call with an operand that carries a far part (a base operand of its own) is the named
+      \* combination at every witness - near the other parts nothing depends on the far part or on the shortcuts it switches
+      v09f == IF "C09" \in Laws /\ fw /\ Depth1(c) /\ ~C01_WitnessF(c) THEN {"C09"} ELSE {}
       v06 == IF "C06" \in Laws /\ ok /\ un /\ ~OpaqueCall(c) /\ ~((big \/ (C06_Self(c) /\ C06_Empty(c) /\ (~(c04 \/ AllIntegral(allE)) \/ C06_TouchingBoxes(c, extra)))) /\ C06_DisjointBoxes(c) /\ pair(C06_Commutes)) THEN {"C06"} ELSE {}
       v07 == IF "C07" \in Laws /\ ~OpaqueCall(c) /\ ~pair(C07_RepresentationInvariant) THEN {"C07"} ELSE {}
       v08 == IF "C08" \in Laws /\ ~big /\ ~pair(C08_TransformCommutes) THEN {"C08"} ELSE {}
       v09 == IF "C09" \in Laws /\ ~big /\ ~pair(C09_FarPartLocal) THEN {"C09"} ELSE {}
       v10 == IF "C10" \in Laws /\ ~OpaqueCall(c) /\ ~pair(C10_F32AgreesF64) THEN {"C10"} ELSE {}
       v05 == IF "C05" \in Laws /\ ~big /\ ~C05_Partition(c, lg) THEN {"C05"} ELSE {}
-  IN vfh \cup vdom \cup und \cup v03 \cup v12 \cup v04 \cup v01 \cup v11 \cup v02 \cup v06 \cup v06f \cup v05f \cup v07 \cup v08 \cup v09 \cup v10 \cup v05
+  IN vfh \cup vdom \cup und \cup v03 \cup v12 \cup v04 \cup v01 \cup v11 \cup v02 \cup v06 \cup v06f \cup v05f \cup v09f \cup v07 \cup v08 \cup v09 \cup v10 \cup v05
 
 \* ------------------------------------------------------------------- actions
 \* is the generator's claim about the new operand true? (a false claim is a harness error)
